@@ -118,7 +118,20 @@ func cmdCheck(args []string) {
 	// preludes
 	var vcPre, recPre string
 	lemmaDefined := map[string]bool{}
-	for _, f := range append([]string{"spec/common.smt2"}, ps.Preludes...) {
+	// every spec prelude is visible to every property (contracts of callees from
+	// other properties may use their vocabulary); common.smt2 first
+	allPre := []string{"spec/common.smt2"}
+	if ms, _ := filepath.Glob(filepath.Join(verifDir, "spec", "*.smt2")); ms != nil {
+		sort.Strings(ms)
+		for _, m := range ms {
+			rel, _ := filepath.Rel(verifDir, m)
+			if strings.HasSuffix(m, ".lemmas.smt2") || rel == "spec/common.smt2" {
+				continue
+			}
+			allPre = append(allPre, rel)
+		}
+	}
+	for _, f := range allPre {
 		b, err := os.ReadFile(filepath.Join(verifDir, f))
 		if err != nil {
 			fmt.Fprintln(os.Stderr, "gocv:", err)
@@ -274,6 +287,13 @@ func cmdCheck(args []string) {
 		}
 	}
 
+	// a solver error (malformed query) is a broken check, not a verdict
+	for _, f := range fails {
+		if f.Obl != nil && f.Obl.Result != nil && f.Obl.Result.Status == "error" {
+			fmt.Fprintf(os.Stderr, "gocv: solver error on %s: %s\n", f.Name, firstLines(f.Obl.Result.Output, 3))
+			os.Exit(2)
+		}
+	}
 	// classify failures
 	violations := 0
 	var knownHit []string
@@ -415,7 +435,7 @@ func oblSelected(o *Obligation, pf PropFunc) bool {
 
 func isSafetyKind(k string) bool {
 	switch k {
-	case "bounds", "nil", "div", "assert", "panic", "mapwrite", "makeslice":
+	case "bounds", "nil", "div", "assert", "panic", "mapwrite", "makeslice", "nilcall":
 		return true
 	}
 	return false
